@@ -138,7 +138,7 @@ impl Property for C13 {
     fn rule(&self) -> String {
         "slim box-bodied robots with optional tool/base + 0..3 free-floating obstacles + non-wrapping limits; start/goal drawn inside the limit box and kept when the robot reports them free (rejections counted); step 1..10 degrees; max_try in {1,10,100,2000}; \
          library RNG seeded per case through verif_hooks; cancellation never / before the call / at the N-th collision query (made deterministic by a counting Kinematics wrapper owned by the harness). \
-         A second 'coarse' regime uses narrow limit windows (some joints +-0.05..0.2 rad), steps of 12..40 degrees and obstacles attached next to the arm, so that random samples often land within one step of a tree vertex and a noticeable share of the window collides. Non-trivial: a returned path with >= 4 nodes (>= 3 in the coarse regime) in a scene with >= 1 obstacle, or a cancellation case."
+         A second 'coarse' regime uses narrow limit windows (some joints +-0.05..0.2 rad), steps of 12..40 degrees and obstacles attached next to the arm, so that random samples often land within one step of a tree vertex and a noticeable share of the window collides. A 'long relocation' regime (1 case in 25) puts start and goal at opposite corners of the limit box with a step of 0.2..0.6 degrees (300..3000 planner steps apart). Non-trivial: a returned path with >= 4 nodes (>= 3 in the coarse regime) in a scene with >= 1 obstacle, a path of more than 257 nodes, or a cancellation case."
             .into()
     }
     fn assumptions(&self) -> Vec<String> {
@@ -205,7 +205,14 @@ impl Property for C13 {
             c.cancel_at = 1;
             c
         });
-        prop_oneof![6 => fine, 4 => coarse, 2 => near].boxed()
+        // long relocations with a fine step: start and goal at opposite corners of the limit box, several hundred planner steps apart
+        let long = (planning_scene(0), limit_box(), prop::array::uniform6(0.02..0.12f64), prop::array::uniform6(0.88..0.98f64), 0.2..0.6f64, any::<u64>(), any::<u8>()).prop_map(|(scene, limits, a, b, step_deg, rng_seed, swap)| {
+            // per joint, which end the start takes
+            let start_u: [f64; 6] = std::array::from_fn(|k| if swap & (1 << k) != 0 { b[k] } else { a[k] });
+            let goal_u: [f64; 6] = std::array::from_fn(|k| if swap & (1 << k) != 0 { a[k] } else { b[k] });
+            Case { scene, limits, start_u, goal_u, step_deg, max_try: 2000, rng_seed, cancel: 0, cancel_at: 1, close: None }
+        });
+        prop_oneof![12 => fine, 8 => coarse, 4 => near, 1 => long].boxed()
     }
     fn check(&self, c: &Case, ctx: &mut Ctx) -> Res {
         if c.scene.safety.ambiguous() {
@@ -329,7 +336,10 @@ impl Property for C13 {
                 }
                 ctx.class(if c.step_deg > 10.5 { "regime:coarse steps / narrow windows" } else { "regime:fine steps" });
                 ctx.class(&format!("path-nodes:{}", if path.len() < 4 { "<4" } else if path.len() < 20 { "4..19" } else { ">=20" }));
-                if (path.len() >= 4 || (c.step_deg > 10.5 && path.len() >= 3)) && !c.scene.env.is_empty() {
+                if path.len() > 257 {
+                    ctx.class("path:longer than 256 nodes (fine step, long relocation)");
+                }
+                if ((path.len() >= 4 || (c.step_deg > 10.5 && path.len() >= 3)) && !c.scene.env.is_empty()) || path.len() > 257 {
                     ctx.nontrivial();
                 }
                 Ok(())
